@@ -1,10 +1,10 @@
 //! C07 harness: maximum / arg-maximum / threshold of striped score matrices.
 //!
 //! `maxi gen --seed S --n N [--tier t]` prints input lines
-//!     <id> k=f32|f16|u8 R=<rows> mi=<max_index> t=<threshold> m=<row/row/...>
+//!     <id> k=f32|f16|f48|u8 R=<rows> mi=<max_index> t=<threshold> m=<row/row/...>
 //!     <id> k=e2e pssm=<row/row/...> seq=<ACTGN...>
 //! (f32 cells and thresholds as decimal u32 bit patterns, u8 as decimal, cells of a row
-//! separated by `,`, `m=-` for a matrix without rows; `f16` is f32 with 16 columns).
+//! separated by `,`, `m=-` for a matrix without rows; `f16` / `f48` are f32 with 16 / 48 columns).
 //! `maxi corpus` prints the boundary corpus (same format).
 //! `maxi run` appends ` => key=value ...` with, for every entry point,
 //!     <p>.max  N | <value>        <p>.am  N | <row>:<col> (or an offset)      <p>.th  - | r:c,r:c,...
@@ -20,7 +20,7 @@ use lightmotif::abc::Background;
 use lightmotif::abc::Dna;
 use lightmotif::dense::DenseMatrix;
 use lightmotif::dense::MatrixCoordinates;
-use lightmotif::num::{U16, U32};
+use lightmotif::num::{U16, U32, U48};
 use lightmotif::pli::dispatch::Dispatch;
 use lightmotif::pli::verif::force_backend;
 use lightmotif::pli::Maximum;
@@ -153,8 +153,16 @@ fn run_f32_32(m: &[Vec<u32>], mi: usize, t: u32) -> String {
     out.join(" ")
 }
 
-fn run_f32_16(m: &[Vec<u32>], mi: usize, t: u32) -> String {
-    let mut s = StripedScores::<f32, U16>::empty();
+/// f32 matrices with another column count (16, 48): Pipeline::generic() and Pipeline::sse2()
+/// (any multiple of 16 columns) + linear scores.
+fn run_f32_cols<C>(m: &[Vec<u32>], mi: usize, t: u32) -> String
+where
+    C: lightmotif::num::PositiveLength + lightmotif::num::MultipleOf<U16>,
+    Pipeline<Dna, lightmotif::pli::platform::Generic>: Maximum<f32, C> + Threshold<f32, C>,
+    Pipeline<Dna, lightmotif::pli::platform::Sse2>: Maximum<f32, C> + Threshold<f32, C>,
+{
+    let cols = C::USIZE;
+    let mut s = StripedScores::<f32, C>::empty();
     s.resize(m.len(), mi);
     for (r, row) in m.iter().enumerate() {
         for (c, &v) in row.iter().enumerate() {
@@ -173,7 +181,7 @@ fn run_f32_16(m: &[Vec<u32>], mi: usize, t: u32) -> String {
     }
     pipeline!("g", Pipeline::<Dna, _>::generic());
     pipeline!("s", Pipeline::<Dna, _>::sse2().unwrap());
-    let (lin, same) = linear_f32(m, mi, 16, no_panic(|| s.unstripe()));
+    let (lin, same) = linear_f32(m, mi, cols, no_panic(|| s.unstripe()));
     out.push(format!("lin.u={}", same as u8));
     out.push(format!("lin.n={}", lin.len()));
     out.push(format!("lin.max={}", show_opt(no_panic(|| lin.max().map(f32::to_bits)))));
@@ -464,7 +472,11 @@ fn gen_f32(rng: &mut Rng, id: usize, sid: usize, tier: &str, cols: usize) -> Str
     format!(
         "{} k={} R={} mi={} t={} m={}",
         id,
-        if cols == 32 { "f32" } else { "f16" },
+        match cols {
+            32 => "f32",
+            16 => "f16",
+            _ => "f48",
+        },
         rows,
         mi,
         t,
@@ -596,7 +608,8 @@ fn gen_case(rng: &mut Rng, id: usize, tier: &str) -> String {
     match id % 10 {
         0 | 1 | 2 | 3 => gen_f32(rng, id, id / 10 * 4 + id % 10, tier, 32),
         4 | 5 | 6 => gen_u8(rng, id, id / 10 * 3 + id % 10 - 4, tier),
-        7 | 8 => gen_f32(rng, id, id / 10 * 2 + id % 10 - 7, tier, 16),
+        7 => gen_f32(rng, id, id / 10, tier, 16),
+        8 => gen_f32(rng, id, id / 10, tier, 48),
         _ => gen_e2e(rng, id, tier),
     }
 }
@@ -632,6 +645,11 @@ fn corpus() -> Vec<String> {
         let mut m = vec![vec![fbits(-7.5); 16]; 3];
         m[2][col] = fbits(-0.25);
         push(format!("k=f16 R=3 mi=48 t={} m={}", fbits(-0.25), show_matrix(&m)), &mut out);
+    }
+    for col in 0..48 {
+        let mut m = vec![vec![fbits(-7.5); 48]; 3];
+        m[2][col] = fbits(-0.25);
+        push(format!("k=f48 R=3 mi=144 t={} m={}", fbits(-0.25), show_matrix(&m)), &mut out);
     }
     // all cells equal (every cell is a maximum), all -inf, all +inf, zeros of both signs
     for &v in &[fbits(-3.0), NINF, PINF, 0u32, 0x8000_0000] {
@@ -726,7 +744,8 @@ fn main() {
                         let t: u32 = f["t"].parse().unwrap();
                         match k {
                             "f32" => run_f32_32(&m, mi, t),
-                            "f16" => run_f32_16(&m, mi, t),
+                            "f16" => run_f32_cols::<U16>(&m, mi, t),
+                            "f48" => run_f32_cols::<U48>(&m, mi, t),
                             "u8" => run_u8_32(&m, mi, t),
                             _ => panic!("unknown kind {}", k),
                         }
